@@ -107,6 +107,17 @@ fn main() {
             let scenario = v["scenario"].as_str().unwrap();
             let case = v["case"].as_i64().unwrap_or(0);
             let prefix: Vec<u8> = v["choices"].as_str().unwrap_or("").bytes().map(|b| b - b'0').collect();
+            if v["dbg"].as_bool() == Some(true) && std::env::current_exe().ok() != Some(std::path::PathBuf::from(runner::DBG_EXE)) {
+                // recorded in the build with debug assertions: replay there
+                let st = std::process::Command::new(runner::DBG_EXE).args(["replay", &args[2]]).status().expect("dbgassert binary");
+                match st.code() {
+                    Some(c) => std::process::exit(c),
+                    None => {
+                        println!("REPRODUCED property={} kind=process-abort : the replaying process died ({})", v["property"], st);
+                        std::process::exit(1);
+                    }
+                }
+            }
             let def = scen::find(scenario).expect("unknown scenario");
             pin_to_core(0);
             let prog = (def.build)(&params.clone().set("case", case));
